@@ -150,11 +150,13 @@ def model_stage(pid, m, tier, seed):
         v = {"property": f.get("property"), "clause": f.get("clause"), "info": f.get("info"), "ev": None}
         if not any(k.get("property") == v["property"] and sig_match({kk: vv for kk, vv in k.get("signature", {}).items() if kk != "ev"}, v) for k in known):
             unexplained.append(f)
-    if unexplained:
-        tool_error(f"spec-level property failure in model {name}: {unexplained[0]} — the model is wrong, not the code")
+    # deferred: if the traces recorded from the real program show a violation in this run, that is what gets reported (the model
+    # starts from a state the real program produced, so a broken program can make the model's own transitions fail too);
+    # only when the real traces are clean is a model-level failure a defect of the model (exit 2)
+    model_level = unexplained[0] if unexplained else None
     log(f"model {name}: {states} states generated, {distinct} distinct, {nedges} edges in {dt:.1f}s")
     return {"name": name, "states": distinct, "transitions": states, "edges": nedges, "edges_path": edges_path, "wall_s": dt,
-            "cfg": cfg, "module": m["module"]}
+            "cfg": cfg, "module": m["module"], "model_level_failure": model_level}
 
 
 def proof_stage(pid, pr):
@@ -460,6 +462,10 @@ def main():
     with open(os.path.join(ROOT, "evidence", f"{pid}.json"), "w") as f:
         json.dump(ev, f, indent=1)
 
+    if not violations:
+        for ms in mstats:
+            if ms.get("model_level_failure"):
+                tool_error(f"spec-level property failure in model {ms['name']}: {ms['model_level_failure']} - the traces of the real program are clean, so the model is wrong, not the code")
     if violations:
         seen_sig = set()
         for k, v in enumerate(violations):
